@@ -4,6 +4,7 @@ import (
 	"context"
 	"errors"
 	"fmt"
+	"math"
 	"reflect"
 	"strings"
 
@@ -189,6 +190,9 @@ func convertAssignInt(d *int, t engine.Term, env *engine.Env) error {
 func convertAssignInt8(d *int8, t engine.Term, env *engine.Env) error {
 	switch t := env.Resolve(t).(type) {
 	case engine.Integer:
+		if t < math.MinInt8 || t > math.MaxInt8 {
+			return errConversion
+		}
 		*d = int8(t)
 		return nil
 	default:
@@ -199,6 +203,9 @@ func convertAssignInt8(d *int8, t engine.Term, env *engine.Env) error {
 func convertAssignInt16(d *int16, t engine.Term, env *engine.Env) error {
 	switch t := env.Resolve(t).(type) {
 	case engine.Integer:
+		if t < math.MinInt16 || t > math.MaxInt16 {
+			return errConversion
+		}
 		*d = int16(t)
 		return nil
 	default:
@@ -209,6 +216,9 @@ func convertAssignInt16(d *int16, t engine.Term, env *engine.Env) error {
 func convertAssignInt32(d *int32, t engine.Term, env *engine.Env) error {
 	switch t := env.Resolve(t).(type) {
 	case engine.Integer:
+		if t < math.MinInt32 || t > math.MaxInt32 {
+			return errConversion
+		}
 		*d = int32(t)
 		return nil
 	default:
